@@ -13,8 +13,10 @@
 package sio
 
 import (
+	"bytes"
 	"context"
 	"encoding/json"
+	"errors"
 	"fmt"
 	"io/ioutil"
 	"log"
@@ -609,7 +611,9 @@ func ResolveSpecSource(ctx context.Context, specSource interface{}) (*crew.SpecS
 		if strings.HasPrefix(src.URL, "file://") {
 			filename := src.URL[7:]
 			log.Println("ResolveSpecSource: reading file", filename)
-			body, err = ioutil.ReadFile(filename)
+			if body, err = ioutil.ReadFile(filename); err != nil {
+				return nil, nil, err
+			}
 		} else {
 			resp, err := http.Get(src.URL)
 			if err != nil {
@@ -617,6 +621,15 @@ func ResolveSpecSource(ctx context.Context, specSource interface{}) (*crew.SpecS
 			}
 			body, err = ioutil.ReadAll(resp.Body)
 			resp.Body.Close()
+		}
+
+		// JSON or YAML?  A JSON document can start with white
+		// space (and a file with a byte order mark); it still is
+		// JSON, with the JSON names of the fields.
+		body = bytes.TrimPrefix(body, []byte("\xef\xbb\xbf"))
+		body = bytes.TrimLeft(body, " \t\r\n")
+		if len(body) == 0 {
+			return nil, nil, errors.New("empty spec at " + src.URL)
 		}
 
 		var spec core.Spec
